@@ -51,7 +51,7 @@ PROBES = ["event_queued_while_bytes_buffered", "two_scheduled_due", "equal_when"
           "threshold_none_burst_gt_read_size", "timeout_expired", "unget_ahead_of_stream", "keyboardinterrupt_torn_request",
           "threadsafe_event_woke_blocked_request", "callback_preempted_between_append_and_write", "sentinel_injected",
           "sigwinch_wakeup", "scheduled_woke_request", "pipe_full_block", "multi_kb_burst", "trigger_created_mid_run",
-          "request_failed_with_injected_eio", "cursor_query", "cursor_query_with_typeahead"]
+          "cursor_query", "cursor_query_with_typeahead"]
 TRIGGERS = {}
 
 KEYS_ASCII = [b"a", b"b", b"c", b"x", b"y", b"z", b" ", b"\n", b"\t", b"\x7f", b"\x01", b"\x04", b"1", b"Q", b"~", b"["]
